@@ -1,7 +1,8 @@
 ---------------------------- MODULE MC_LaneletGeom ----------------------------
 (* Model for C20.  Three kinds of behaviours (selected by Modes):                      *)
 (*  "geom"  one behaviour per polyline: s2 walks the half-integer arc-length grid        *)
-(*  "merge" one state per pair (lane a, lane b starting where a ends)                    *)
+(*  "merge" one behaviour per pair (lane a, lane b starting where a ends): s2 walks the   *)
+(*          arc-length grid of the merged lane                                           *)
 (*  "route" an implementation-shaped model of the breadth-wise path expansion of         *)
 (*          find_lanelet_successors_in_range: one step per processed path, one step per  *)
 (*          while-iteration; on EVERY digraph without self-loops on N lanelets            *)
@@ -54,7 +55,9 @@ InitRoute == /\ "route" \in Modes /\ mode = "route" /\ pa = <<>> /\ pb = <<>> /\
              /\ pnext = <<>> /\ lnext = <<>> /\ i = 1 /\ final = <<>> /\ rnd = 0 /\ done = FALSE
 Init == InitGeom \/ InitMerge \/ InitRoute
 
-Walk == /\ mode = "geom" /\ s2 < 2 * Length(pa) /\ s2' = s2 + 1
+Walk == /\ \/ mode = "geom" /\ s2 < 2 * Length(pa)
+           \/ mode = "merge" /\ s2 < 2 * (Length(pa) + Length(pb))
+        /\ s2' = s2 + 1
         /\ UNCHANGED <<mode, pa, pb, G, len, start, range, paths, plens, pnext, lnext, i, final, rnd, done>>
 
 (* the inner `for s in successors` loop for one path p with accumulated length le *)
@@ -85,11 +88,12 @@ Next == Walk \/ Step \/ Advance \/ Finish
 Spec == Init /\ [][Next]_vars /\ WF_vars(Next)
 
 (* ---- laws ---- *)
-IsGeom == mode = "geom"
-LawStart     == IsGeom => LawCumStart(pa)
-LawMonotone  == IsGeom => LawCumMonotone(pa)
-LawEnd       == IsGeom => LawCumEnd(pa)
-LawFirstLast == IsGeom => LawEnds(pa) /\ LawVertices(pa)
+IsGeom  == mode = "geom"
+IsGeom0 == mode = "geom" /\ s2 = 0          \* laws that do not depend on s2 are evaluated once per polyline
+LawStart     == IsGeom0 => LawCumStart(pa)
+LawMonotone  == IsGeom0 => LawCumMonotone(pa)
+LawEnd       == IsGeom0 => LawCumEnd(pa)
+LawFirstLast == IsGeom0 => LawEnds(pa) /\ LawVertices(pa)
 LawPoint     == IsGeom => /\ InRange(pa, s2, 2)
                           /\ LawArc(pa, s2, 2)
                           /\ LawSegIndependent(pa, pa, s2, 2)
@@ -99,10 +103,10 @@ LawPoint     == IsGeom => /\ InRange(pa, s2, 2)
 LawOffset    == IsGeom => LET P == PointAt(pa, s2, 2)  L == BoundaryAt(pa, LeftOf(pa), s2, 2)
                           IN L[1][1] = P[1][1] - P[1][2] /\ L[2][1] = P[2][1] + P[2][2]
 LawGrid      == IsGeom => OnGrid(PointAt(pa, s2, 2)[1], Den) /\ OnGrid(PointAt(pa, s2, 2)[2], Den)
-LawMerge     == mode = "merge" => LET a == LaneOf(pa)  b == LaneOf(pb)
+LawMerge     == mode = "merge" /\ s2 = 0 => LET a == LaneOf(pa)  b == LaneOf(pb)
                                   IN Joint(a, b) /\ LawMergeLength(a, b) /\ LawMergeCount(a, b) /\ LawMergeCum(a, b)
                                      /\ WellFormed(Merge(a, b).c)
-                                     /\ \A sn \in 0..2 * (Length(pa) + Length(pb)) : LawMergePoint(a, b, sn, 2)
+LawMergedPoint == mode = "merge" => LawMergePoint(LaneOf(pa), LaneOf(pb), s2, 2)   \* s2 walks the merged lane
 
 IsRoute == mode = "route"
 InvResult == IsRoute /\ done => ValidRoutes(G, len, start, range, final)
@@ -117,7 +121,7 @@ LaneJ(poly) == [l |-> LeftOf(poly), c |-> poly, r |-> RightOf(poly)]
 Emit ==
   /\ (mode = "geom" /\ s2 = 0) =>
         PrintT(<<"CASE", ToJson([kind |-> "poly", c |-> pa, l |-> LeftOf(pa), r |-> RightOf(pa), sd |-> 2, den |-> Den])>>)
-  /\ mode = "merge" =>
+  /\ (mode = "merge" /\ s2 = 0) =>
         PrintT(<<"CASE", ToJson([kind |-> "merge", a |-> LaneJ(pa), b |-> LaneJ(pb), den |-> Den])>>)
   /\ (mode = "route" /\ ~done /\ rnd = 0 /\ i = 1) =>
         PrintT(<<"CASE", ToJson([kind |-> "query", succ |-> G, len |-> len, start |-> start, range |-> range])>>)
